@@ -505,7 +505,21 @@ namespace
         int nc = (int)mod(p.c(0) - 2, 3) + 2;
         g_life.live.clear();
         typedef igris::static_object_pool<T, Cap> Pool;
-        std::unique_ptr<Pool> pool(new Pool());
+        // the pool is a member of a larger object (16 bytes of other data in front of it), and that object sits in memory
+        // that is aligned far beyond any requirement: the address of the pool is then decided by its own alignment alone
+        struct Holder
+        {
+            char lead[16];
+            Pool pool;
+        };
+        struct Free
+        {
+            void operator()(Holder *h) const { h->~Holder(); free(h); }
+        };
+        void *raw = aligned_alloc(256, (sizeof(Holder) + 255) / 256 * 256);
+        std::unique_ptr<Holder, Free> holder(new (raw) Holder());
+        Pool *pool = &holder->pool;
+        if (alignof(T) > alignof(max_align_t)) probe("over_aligned_element_type");
         const size_t slot = sizeof(typename Pool::storage_type);
         char *lo = (char *)pool->storage.data(), *hi = lo + Cap * slot;
         std::map<char *, std::pair<int, int>> live; // cell -> (tag, owner)
@@ -593,7 +607,7 @@ namespace
         {
             Plan p;
             int nc = (int)r.range(2, 4);
-            p.cfg = {nc, (int64_t)r.below(7), (int64_t)r.below(3)};
+            p.cfg = {nc, (int64_t)r.below(10), (int64_t)r.below(3)};
             int n = (int)r.range(4, tier == THOROUGH ? 100 : 45);
             int phase = 0, left = 0;
             for (int i = 0; i < n; i++)
@@ -610,14 +624,14 @@ namespace
         }
         std::string describe(const Plan &p) override
         {
-            static const char *tn[] = {"4B/align4", "8B/align8", "12B/align4", "20B/align4", "9B/align1", "24B/align8", "3B/align1"};
+            static const char *tn[] = {"4B/align4", "8B/align8", "12B/align4", "20B/align4", "9B/align1", "24B/align8", "3B/align1", "32B/align32", "64B/align64", "16B/align16"};
             static const int caps[] = {1, 5, 9};
-            return std::string("element ") + tn[mod(p.c(1), 7)] + " capacity " + std::to_string(caps[mod(p.c(2), 3)]) + " " + plan_to_json(p);
+            return std::string("element ") + tn[mod(p.c(1), 10)] + " capacity " + std::to_string(caps[mod(p.c(2), 3)]) + " " + plan_to_json(p);
         }
         Result execute(const Plan &p, Trace &tr) override
         {
             Result res;
-            int t = (int)mod(p.c(1), 7), c = (int)mod(p.c(2), 3);
+            int t = (int)mod(p.c(1), 10), c = (int)mod(p.c(2), 3);
 #define SOP_CASE(TI, N, A)                                                                                   \
     if (t == TI)                                                                                             \
     {                                                                                                        \
@@ -632,6 +646,9 @@ namespace
             SOP_CASE(4, 9, 1)
             SOP_CASE(5, 24, 8)
             SOP_CASE(6, 3, 1)
+            SOP_CASE(7, 32, 32)
+            SOP_CASE(8, 64, 64)
+            SOP_CASE(9, 16, 16)
             if (sizeof(Elem<12, 4>) != 12 || sizeof(Elem<9, 1>) != 9) violate("C10/harness", "element layout assumption broken");
             probe("object_pool_odd_element_size", (t == 2 || t == 3 || t == 4) ? 1 : 0);
             return res;
